@@ -40,6 +40,18 @@ static void put_found(const MPT_STRUCT(node) *nd)
 	result("found=?");
 }
 
+/* the name operand as the callee gets it: with an explicit length it is a slice of the longer operand buffer
+ * (followed by the operand's remaining bytes); without, a block of exactly its size (no terminator behind it, so
+ * ASan sees any read past the announced length); for len = -1 the terminated buffer */
+static uint8_t *name_block(uint8_t *dat, size_t dlen, int explicit_len, long len, uint8_t **tofree)
+{
+	*tofree = 0;
+	if (explicit_len || len < 0) return dat;
+	*tofree = (uint8_t *) __real_malloc(dlen ? dlen : 1);
+	memcpy(*tofree, dat, dlen);
+	return *tofree;
+}
+
 int main(void)
 {
 	static char line[1 << 20];
@@ -87,9 +99,11 @@ int main(void)
 			if (drv_nw == 5 && parse_len(drv_w[4], &len)) { __real_free(dat); puts("bad-op"); continue; }
 			/* a null name needs an explicit length; an explicit length may not exceed the data */
 			if ((isnull && (drv_nw != 5 || len < 0)) || (!isnull && len > (long) dlen)) { __real_free(dat); puts("bad-op"); continue; }
+			uint8_t *blk = 0, *nm = isnull ? 0 : name_block(dat, dlen, drv_nw == 5, len, &blk);
 			in_lib = (int) k;
-			void *r = mpt_identifier_set(slots[k].id, isnull ? 0 : (char *) dat, (int) len);
+			void *r = mpt_identifier_set(slots[k].id, (char *) nm, (int) len);
 			in_lib = -1;
+			__real_free(blk);
 			__real_free(dat);
 			result(r ? "ok" : "refused");
 		}
@@ -122,7 +136,9 @@ int main(void)
 			len = (long) dlen;
 			if (drv_nw == 5 && parse_len(drv_w[4], &len)) { __real_free(dat); puts("bad-op"); continue; }
 			if ((isnull && drv_nw != 5) || (!isnull && len > (long) dlen)) { __real_free(dat); puts("bad-op"); continue; }
-			int r = mpt_identifier_compare(slots[k].id, isnull ? 0 : (char *) dat, (int) len);
+			uint8_t *blk = 0, *nm = isnull ? 0 : name_block(dat, dlen, drv_nw == 5, len, &blk);
+			int r = mpt_identifier_compare(slots[k].id, (char *) nm, (int) len);
+			__real_free(blk);
 			__real_free(dat);
 			char buf[48];
 			snprintf(buf, sizeof(buf), " ret=%d", r < 0 ? r : (r > 0 ? 1 : 0));
